@@ -938,3 +938,151 @@ Proof.
   - unf. zq. split; ring.
 Qed.
 Local Transparent Z.mul.
+
+(** * zoom_to(resolution=...): tight snapping of the bounding box *)
+Lemma split_float_sum x : fst (split_float x) + snd (split_float x) == x.
+Proof.
+  unfold split_float.
+  destruct (Qltb (1 # 2) (x - Zq (Qtrunc x))); [cbn [fst snd]; ring|].
+  destruct (Qltb (x - Zq (Qtrunc x)) (- (1 # 2))); cbn [fst snd]; ring.
+Qed.
+
+Lemma Qltb_true x y : Qltb x y = true -> x < y.
+Proof.
+  unfold Qltb. intros H. apply negb_true_iff in H. apply Qle_bool_false in H. exact H.
+Qed.
+
+Lemma maybe_int_ge x tol : 0 <= tol -> x - tol <= maybe_int x tol.
+Proof.
+  intros Ht. unfold maybe_int. pose proof (split_float_sum x) as S.
+  destruct (split_float x) as [w p]. cbn [fst snd] in S.
+  destruct (Qltb (Qabs p) tol) eqn:E.
+  - apply Qltb_true in E. pose proof (Qle_Qabs p). lra.
+  - lra.
+Qed.
+
+Lemma snap_tight_spec x0 x1 r tol off n : 0 <= tol -> snap_tight x0 x1 r tol = Ok (off, n) ->
+  ~ r == 0 /\ (1 <= n)%Z /\
+  (0 < r -> off = x0 /\ x1 - tol * r <= off + Zq n * r) /\
+  (r < 0 -> off = x1 /\ off + Zq n * r <= x0 + tol * (- r)).
+Proof.
+  intros Ht. unfold snap_tight.
+  destruct (Qltb 0 r) eqn:E1.
+  - apply Qltb_true in E1. intros H; injection H as <- <-.
+    split; [lra|]. split; [lia|]. split; [|intros; lra]. intros _. split; [reflexivity|].
+    set (m := maybe_int ((x1 - x0) / r) tol).
+    pose proof (maybe_int_ge ((x1 - x0) / r) tol Ht) as Hm. fold m in Hm.
+    pose proof (Qle_ceiling m) as Hc.
+    assert (Hz : Zq (Qceiling m) <= Zq (Z.max 1 (Qceiling m))) by (apply Zq_le1; lia).
+    unfold Zq in Hz at 1.
+    assert (E : (x1 - x0) / r * r == x1 - x0) by (field; lra).
+    assert (G : 0 <= (Zq (Z.max 1 (Qceiling m)) - ((x1 - x0) / r - tol)) * r)
+      by (apply Qmult_le_0_compat; lra).
+    lra.
+  - unfold Qltb in E1. apply negb_false_iff, Qle_bool_iff in E1.
+    destruct (Qeq_bool r 0) eqn:E2; [discriminate|].
+    assert (Hr : ~ r == 0) by (intros C; apply Qeq_bool_iff in C; congruence).
+    intros H; injection H as <- <-.
+    split; [exact Hr|]. split; [lia|]. split; [intros; lra|]. intros Hneg. split; [reflexivity|].
+    set (m := maybe_int ((x1 - x0) / - r) tol).
+    pose proof (maybe_int_ge ((x1 - x0) / - r) tol Ht) as Hm. fold m in Hm.
+    pose proof (Qle_ceiling m) as Hc.
+    assert (Hz : Zq (Qceiling m) <= Zq (Z.max (Qceiling m) 1)) by (apply Zq_le1; lia).
+    unfold Zq in Hz at 1.
+    assert (E : (x1 - x0) / - r * - r == x1 - x0) by (field; lra).
+    assert (G : 0 <= (Zq (Z.max (Qceiling m) 1) - ((x1 - x0) / - r - tol)) * - r)
+      by (apply Qmult_le_0_compat; lra).
+    lra.
+Qed.
+
+Lemma zoom_to_res_contract c g rx ry g' l b r t :
+  0 <= tol_snap c -> boundingbox g = (l, b, r, t) -> zoom_to_res c g rx ry = Ok g' ->
+  g_crs g' = g_crs g /\ (1 <= g_nx g')%Z /\ (1 <= g_ny g')%Z /\
+  aa (g_A g') == rx /\ ab (g_A g') == 0 /\ ad (g_A g') == 0 /\ ae (g_A g') == ry /\
+  ~ rx == 0 /\ ~ ry == 0 /\
+  (forall y, (0 < rx -> fst (pix2wld g' (0, y)) == l /\
+                         r - tol_snap c * rx <= fst (pix2wld g' (Zq (g_nx g'), y))) /\
+             (rx < 0 -> fst (pix2wld g' (0, y)) == r /\
+                         fst (pix2wld g' (Zq (g_nx g'), y)) <= l + tol_snap c * (- rx))) /\
+  (forall x, (0 < ry -> snd (pix2wld g' (x, 0)) == b /\
+                         t - tol_snap c * ry <= snd (pix2wld g' (x, Zq (g_ny g')))) /\
+             (ry < 0 -> snd (pix2wld g' (x, 0)) == t /\
+                         snd (pix2wld g' (x, Zq (g_ny g'))) <= b + tol_snap c * (- ry))).
+Proof.
+  intros Ht Hb. unfold zoom_to_res. rewrite Hb.
+  destruct (snap_tight l r rx (tol_snap c)) as [[offx nx]|e] eqn:Ex; [|discriminate]. cbn [bind].
+  destruct (snap_tight b t ry (tol_snap c)) as [[offy ny]|e] eqn:Ey; [|discriminate]. cbn [bind].
+  intros H; injection H as <-. cbn [g_crs g_nx g_ny g_A].
+  destruct (snap_tight_spec _ _ _ _ _ _ Ht Ex) as (Rx & Nx & Px & Mx).
+  destruct (snap_tight_spec _ _ _ _ _ _ Ht Ey) as (Ry & Ny & Py & My).
+  split; [reflexivity|]. split; [exact Nx|]. split; [exact Ny|].
+  unfold pix2wld, apply, amul, atrans, ascale; cbn [g_A aa ab ac ad ae af fst snd].
+  split; [ring|]. split; [ring|]. split; [ring|]. split; [ring|].
+  split; [exact Rx|]. split; [exact Ry|]. split.
+  - intros y. split; intros Hs.
+    + destruct (Px Hs) as [-> Hc]. split; [ring | lra].
+    + destruct (Mx Hs) as [-> Hc]. split; [ring | lra].
+  - intros x. split; intros Hs.
+    + destruct (Py Hs) as [-> Hc]. split; [ring | lra].
+    + destruct (My Hs) as [-> Hc]. split; [ring | lra].
+Qed.
+
+(** * (iv) GCP based geoboxes: the polynomial fit is an oracle *)
+Section GCP.
+  Variable p2w w2p : pt -> pt.
+  Hypothesis p2w_proper : forall p q, peq p q -> peq (p2w p) (p2w q).
+
+  (** every pixel contract of the (shape, _affine) part transfers through the fit *)
+  Lemma gcp_transfer g g' (gm : pt -> pt) :
+    (forall p, peq (pix2wld g' p) (pix2wld g (gm p))) ->
+    forall p, peq (gcp_pix2wld p2w g' p) (gcp_pix2wld p2w g (gm p)).
+  Proof. intros H p. unfold gcp_pix2wld. apply p2w_proper. apply H. Qed.
+
+  Lemma gcp_getitem g sy sx g' : getitem g (RTup [sy; sx]) = Ok g' ->
+    let '(y0, y1, _) := norm_bounds sy (g_ny g) in
+    let '(x0, x1, _) := norm_bounds sx (g_nx g) in
+    g_ny g' = (y1 - y0)%Z /\ g_nx g' = (x1 - x0)%Z /\ g_crs g' = g_crs g /\
+    forall p, peq (gcp_pix2wld p2w g' p) (gcp_pix2wld p2w g (fst p + Zq x0, snd p + Zq y0)).
+  Proof.
+    intros H. pose proof (getitem_tup_contract g sy sx g' H) as C.
+    destruct (norm_bounds sy (g_ny g)) as [[y0 y1] sty].
+    destruct (norm_bounds sx (g_nx g)) as [[x0 x1] stx].
+    destruct C as (C1 & C2 & C3 & C4). repeat split; try assumption.
+    - apply (gcp_transfer g g' (fun p => (fst p + Zq x0, snd p + Zq y0)) C4).
+    - apply (gcp_transfer g g' (fun p => (fst p + Zq x0, snd p + Zq y0)) C4).
+  Qed.
+
+  Lemma gcp_pad g padx pady p :
+    peq (gcp_pix2wld p2w (pad g padx pady) p)
+        (gcp_pix2wld p2w g (fst p - Zq padx, snd p - Zq (fill pady padx))).
+  Proof.
+    apply (gcp_transfer g (pad g padx pady) (fun p => (fst p - Zq padx, snd p - Zq (fill pady padx)))).
+    intros q. apply pad_contract.
+  Qed.
+
+  Lemma gcp_zoom_out g f g' : 0 < f -> zoom_out g f = Ok g' ->
+    forall p, peq (gcp_pix2wld p2w g' p) (gcp_pix2wld p2w g (f * fst p, f * snd p)).
+  Proof.
+    intros Hf H. destruct (zoom_out_contract g f Hf) as (g2 & H2 & _ & _ & _ & C & _).
+    rewrite H in H2. injection H2 as <-.
+    apply (gcp_transfer g g' (fun p => (f * fst p, f * snd p)) C).
+  Qed.
+
+  (** round trip, conditional on the fits being mutually inverse *)
+  Lemma gcp_roundtrip g p : invertible g -> (forall q, peq (w2p (p2w q)) q) ->
+    peq (gcp_wld2pix w2p g (gcp_pix2wld p2w g p)) p.
+  Proof.
+    intros Hi Hinv. unfold gcp_wld2pix, gcp_pix2wld.
+    rewrite (Hinv (apply (g_A g) p)). apply apply_inv_l. exact Hi.
+  Qed.
+
+  (** exact agreement with the linear GeoBox [approx] when the fit is the affine map M *)
+  Lemma gcp_affine_exact g M p : (forall q, peq (p2w q) (apply M q)) ->
+    peq (gcp_pix2wld p2w g p) (pix2wld (gcp_approx M g) p) /\
+    g_ny (gcp_approx M g) = g_ny g /\ g_nx (gcp_approx M g) = g_nx g /\ g_crs (gcp_approx M g) = g_crs g.
+  Proof.
+    intros H. split; [|repeat split].
+    unfold gcp_pix2wld, gcp_approx. rewrite H.
+    destruct (grmul_contract M g p) as [E _]. rewrite E. reflexivity.
+  Qed.
+End GCP.
